@@ -551,28 +551,119 @@ fn site_case(rec: &mut Recorder, start: u32, mut pre: Vec<Op>, mut progs: Vec<Ve
     let mut ids = BTreeSet::new();
     mentioned(&pre, &pre_rets, &mut ids);
     ids.extend(cur.iter());
-    // oracle: one id per identity among the programs
+    // These programs are the harness' own transliteration of the call sites: two ids for one identity
+    // here is a fact about the Register API (no atomic find-or-register), counted but not judged;
+    // the real call site is judged in `peerup_case`. Judged here: ids handed out are distinct.
     let mut verdict = None;
     let mut seen: Vec<(String, u32)> = vec![];
+    let mut two_ids = false;
     for t in 0..n {
         if let Some(Micro::Find(l, q, _)) = progs[t].first() {
             let complete = q[PARENT].is_some() && q[ADDR].is_some() && (*l == Lvl::Router || q[ASN].is_some());
             if !complete || progs[t].len() != 3 { continue; }
             let key = format!("{}{:?}", l.ch(), match l { Lvl::Peer => [q[PARENT], q[ADDR], q[ASN], q[RIB]], Lvl::Router => [q[PARENT], q[ADDR], None, None] });
             match seen.iter().find(|s| s.0 == key) {
-                Some(s) if s.1 != cur[t] => { verdict = Some(format!("callsite:find-then-register-race identity {key} got ids {} and {} (find / register / update_info are separate steps)", s.1, cur[t])); }
+                Some(s) if s.1 != cur[t] => two_ids = true,
                 Some(_) => {}
                 None => seen.push((key, cur[t])),
             }
         }
     }
+    {
+        let mut fresh: Vec<u32> = (0..n).filter(|t| found[*t].is_none() && pc[*t] >= 2).map(|t| cur[t]).collect();
+        let k = fresh.len(); fresh.sort(); fresh.dedup();
+        if fresh.len() != k { verdict = Some("unique-id:duplicate two call-site programs registered the same id".to_string()); }
+    }
     let raced = executed.windows(2).any(|w| w[0] != w[1]) && executed.len() > n;
     rec.bump("site.cases");
-    if verdict.is_some() { rec.bump("site.cases_two_ids_for_one_identity"); }
+    if two_ids { rec.bump("site.cases_two_ids_for_one_identity"); }
     let case = format!("site|{start}|{}|{}|{}|{}", show_ops(&pre), join(progs.iter().map(|p| join(p.iter().map(show_micro), " ")), "/"), join(executed.iter(), " "), join(ids.iter(), " "));
     let imp = format!("{} => {}", join(cur.iter().map(|c| format!("i{c}")), "/"), probes(&reg, &ids));
     rec.case(case, imp, verdict.map(|e| format!("fail {e}")).unwrap_or("ok".into()), raced);
     cur
+}
+
+// ------------------------------------------- the real add_peer_config call site
+
+/// 42 bytes of a BMP per-peer header for the interned (addr, asn, rib).
+fn pph_bytes(addr: u64, asn: u64, rib: u64) -> [u8; 42] {
+    let mut b = [0u8; 42];
+    b[0] = if rib == 2 { 3 } else { 0 };                 // peer type: Loc-RIB instance / global instance
+    let a = addr_of(addr);
+    let mut flags = 0u8;
+    if a.is_ipv6() { flags |= 0x80; }
+    if rib == 1 { flags |= 0x10; }                        // O flag: Adj-RIB-Out
+    b[1] = flags;
+    match a { IpAddr::V4(v4) => b[22..26].copy_from_slice(&v4.octets()), IpAddr::V6(v6) => b[10..26].copy_from_slice(&v6.octets()) }
+    b[26..30].copy_from_slice(&(asn as u32).to_be_bytes());
+    b[30..34].copy_from_slice(&[192, 0, 2, 1]);
+    b
+}
+
+/// Two BMP state machines (own `PeerStates` each, one shared `Register`) bring up a peer each.
+/// `raced`: machine 0 is parked at the pause point after its lookup missed, machine 1 runs, machine 0
+/// resumes — the schedule `0 1 1 1 0 0` of the call-site model. Returns whether machine 0 was parked.
+fn peerup_case(rec: &mut Recorder, parents: [u32; 2], peers: [(u64, u64, u64); 2], known_before: bool, raced: bool) -> bool {
+    use std::sync::mpsc::channel;
+    let reg = Arc::new(facade::new_register());
+    let mut pre = vec![Op::Reg, Op::Reg, Op::Reg];
+    let _: Vec<Ret> = pre.iter_mut().map(|o| apply(&reg, o)).collect();
+    let q = |t: usize| { let mut i = q_peer(parents[t] as u64, peers[t].0, peers[t].1); i[RIB] = Some(peers[t].2); i };
+    let mut progs: Vec<Vec<Micro>> = vec![];
+    let mut sched: Vec<usize> = vec![];
+    if known_before {
+        // the peer of machine 0 was up earlier (a previous session of the same router)
+        facade::PeerTable::default().add_peer(pph_bytes(peers[0].0, peers[0].1, peers[0].2), reg.clone(), parents[0]);
+        progs.push(site_prog(Lvl::Peer, q(0))); sched.extend([0, 0, 0]);
+    }
+    let base = progs.len();
+    progs.push(site_prog(Lvl::Peer, q(0)));
+    progs.push(site_prog(Lvl::Peer, q(1)));
+    let (paused_tx, paused_rx) = channel::<bool>();
+    let (resume_tx, resume_rx) = channel::<()>();
+    let regc = reg.clone();
+    let (p0, pp0) = (parents[0], peers[0]);
+    let h = std::thread::spawn(move || {
+        if raced {
+            let paused_tx = paused_tx.clone();
+            let resume_rx = Mutex::new(resume_rx);
+            rotonda::verif::set_point_handler(Some(Arc::new(move |name| {
+                if name == "add_peer_config.lookup_missed" { paused_tx.send(true).unwrap(); resume_rx.lock().unwrap().recv().unwrap(); }
+            })));
+        }
+        let r = facade::PeerTable::default().add_peer(pph_bytes(pp0.0, pp0.1, pp0.2), regc, p0);
+        rotonda::verif::set_point_handler(None);
+        let _ = paused_tx.send(false);
+        r
+    });
+    let mut parked = if raced { paused_rx.recv().unwrap() } else { false };
+    if !raced { while !h.is_finished() { std::thread::yield_now(); } }
+    // machine 1 runs in its own thread: if a repaired tree holds the Register's lock across the
+    // pause point, machine 1 blocks; then machine 0 is released first and the run was sequential.
+    let (regb, p1, pp1) = (reg.clone(), parents[1], peers[1]);
+    let (done_tx, done_rx) = channel::<()>();
+    let hb = std::thread::spawn(move || { facade::PeerTable::default().add_peer(pph_bytes(pp1.0, pp1.1, pp1.2), regb, p1); let _ = done_tx.send(()); });
+    if parked {
+        if done_rx.recv_timeout(std::time::Duration::from_millis(1500)).is_err() { parked = false; rec.bump("peerup.lock_held_across_pause_point"); }
+        resume_tx.send(()).unwrap();
+    }
+    h.join().unwrap();
+    hb.join().unwrap();
+    if parked { sched.extend([base, base + 1, base + 1, base + 1, base, base]); } else { sched.extend([base, base, base, base + 1, base + 1, base + 1]); }
+
+    let ids: BTreeSet<u32> = (1..=8).collect();
+    // oracle: every identity presented through the real call site has exactly one id in the register
+    let mut verdict = None;
+    for t in 0..2 {
+        let n = ids.iter().filter(|id| reg.get(**id).map(|i| { let i = from_real(&i); ref_matches(Lvl::Peer, &q(t), &i) }).unwrap_or(false)).count();
+        if n != 1 { verdict = Some(format!("callsite:find-then-register-race add_peer_config left {n} ids for the peer identity {:?} (lookup and registration are separate critical sections)", [q(t)[PARENT], q(t)[ADDR], q(t)[ASN], q(t)[RIB]])); break; }
+    }
+    rec.bump("peerup.cases");
+    if parked { rec.bump("peerup.parked_after_missed_lookup"); }
+    let case = format!("peerup|1|{}|{}|{}|{}", show_ops(&pre), join(progs.iter().map(|p| join(p.iter().map(show_micro), " ")), "/"), join(sched.iter(), " "), join(ids.iter(), " "));
+    let imp = format!("=> {}", probes(&reg, &ids));
+    rec.case(case, imp, verdict.map(|e| format!("fail {e}")).unwrap_or("ok".into()), parked);
+    parked
 }
 
 // ------------------------------------------------------------------- main
@@ -591,6 +682,16 @@ fn main() {
             match p[0] {
                 "seq" => { run_seq(&mut rec, p[1].parse().unwrap(), ops(p[2]).into_iter().map(|o| match o { Op::Find(l, q, _) => Op::Find(l, q, None), Op::FindOrReg(l, q, _) => Op::FindOrReg(l, q, None), o => o }).collect(), false); }
                 "site" => { site_case(&mut rec, p[1].parse().unwrap(), ops(p[2]), p[3].split('/').map(|t| t.split_whitespace().map(parse_micro).collect()).collect(), &p[4].split_whitespace().map(|x| x.parse().unwrap()).collect::<Vec<usize>>()); }
+                "peerup" => {
+                    // re-run the real call site with the identities and the shape (raced / sequential) of the case
+                    let progs: Vec<Vec<Micro>> = p[3].split('/').map(|t| t.split_whitespace().map(parse_micro).collect()).collect();
+                    let ident = |pr: &Vec<Micro>| match &pr[0] { Micro::Find(_, q, _) => (q[PARENT].unwrap() as u32, (q[ADDR].unwrap(), q[ASN].unwrap(), q[RIB].unwrap_or(0))), _ => (2, (0, 65000, 0)) };
+                    let known_before = progs.len() == 3;
+                    let (a, b) = (ident(&progs[progs.len() - 2]), ident(&progs[progs.len() - 1]));
+                    let sched: Vec<usize> = p[4].split_whitespace().map(|x| x.parse().unwrap()).collect();
+                    let raced = sched.len() >= 6 && sched[sched.len() - 6] != sched[sched.len() - 5];
+                    peerup_case(&mut rec, [a.0, b.0], [a.1, b.1], known_before, raced);
+                }
                 "conc" => {
                     // a recorded merge is a sequential history: replay it as one
                     let progs: Vec<Vec<Op>> = p[3].split('/').map(ops).collect();
@@ -609,6 +710,11 @@ fn main() {
     // 0. witnesses of the counterexample theorems, replayed on the real Register first.
     // C14_callsite_counterexample: two find-else-register programs for one peer identity, interleaved.
     let q = q_peer(7, 3, 65000);
+    // ... first on the real call site `PeerStates::add_peer_config` (two state machines that share a router id,
+    // machine 0 parked between its lookup and its registration), then on the bare Register.
+    let parked = peerup_case(&mut rec, [2, 2], [(4, 65000, 0), (4, 65000, 0)], false, true);
+    rec.variant("callsite", if parked { "as-written" } else { "no-pause-point-reached" });
+    peerup_case(&mut rec, [2, 2], [(4, 65000, 0), (4, 65000, 0)], false, false);
     let w = site_case(&mut rec, 1, vec![], vec![site_prog(Lvl::Peer, q), site_prog(Lvl::Peer, q)], &[0, 1, 0, 1, 0, 1]);
     rec.extra.insert("callsite_witness_ids".into(), serde_json::json!(w));
     // the same two programs one after the other: one id
@@ -621,14 +727,14 @@ fn main() {
     let mut g = Gen { rng: Rng::new(args.seed) };
 
     // 1. sequential histories
-    let nseq = if args.thorough { 200_000 } else { 12_000 };
+    let nseq = if args.thorough { 1_500_000 } else { 60_000 };
     for k in 0..nseq {
         if k % 2 == 0 { let (s, ops) = gen_free(&mut g); run_seq(&mut rec, s, ops, false); }
         else { let (s, ops) = gen_disciplined(&mut g); run_seq(&mut rec, s, ops, true); }
     }
 
     // 2. call-site programs under random schedules, distinct identities per thread population
-    let nsite = if args.thorough { 40_000 } else { 3_000 };
+    let nsite = if args.thorough { 300_000 } else { 10_000 };
     for _ in 0..nsite {
         let lvl = g.lvl();
         let nt = g.rng.range(2, 3) as usize;
@@ -643,8 +749,24 @@ fn main() {
         site_case(&mut rec, 1, vec![Op::Reg, Op::Reg, Op::Reg], progs, &sched);
     }
 
+    // 2b. the real add_peer_config call site: same / different router ids, same / different peers
+    let npeer = if args.thorough { 20_000 } else { 600 };
+    for _ in 0..npeer {
+        let same_router = g.rng.chance(1, 2);
+        let same_peer = g.rng.chance(1, 2);
+        let p0 = (g.small(6), 65000 + g.small(2), g.small(3));
+        let p1 = if same_peer { p0 } else { (g.small(6), 65000 + g.small(2), g.small(3)) };
+        // the race on one identity needs a shared router id AND the same peer: that is the known finding's
+        // territory (witness above); random cases keep the identities apart so that a *different* defect shows
+        let conflict = same_router && p0 == p1;
+        let raced = g.rng.chance(2, 3);
+        let known_before = g.rng.chance(1, 3);
+        if conflict && raced && !known_before { rec.bump("peerup.skipped_known_race_shape"); continue; }
+        peerup_case(&mut rec, [2, if same_router { 2 } else { 3 }], [p0, p1], known_before, raced);
+    }
+
     // 3. real threads
-    let nconc = if args.thorough { 6_000 } else { 400 };
+    let nconc = if args.thorough { 40_000 } else { 1_500 };
     for _ in 0..nconc {
         let nt = g.rng.range(2, 8) as usize;
         let len = g.rng.range(6, 40) as usize;
@@ -654,7 +776,7 @@ fn main() {
     // hammering: many registrations from 16 threads, ids pairwise distinct
     {
         let reg = Arc::new(facade::new_register());
-        let per = if args.thorough { 200_000 } else { 20_000 };
+        let per = if args.thorough { 2_000_000 } else { 50_000 };
         let all = Arc::new(Mutex::new(Vec::<u32>::new()));
         let hs: Vec<_> = (0..16).map(|_| { let (reg, all) = (reg.clone(), all.clone()); std::thread::spawn(move || { let v: Vec<u32> = (0..per).map(|_| facade::register(&reg)).collect(); all.lock().unwrap().extend(v); }) }).collect();
         for h in hs { h.join().unwrap(); }
